@@ -59,27 +59,104 @@ Proof. unfold sub1. destruct (0 <? cnt w)%N; simpl; try lia. destruct (dl w); un
 Lemma gen_bump w : (gen w <= gen (bump w))%N. Proof. simpl; lia. Qed.
 Lemma gen_set_dl w b : (gen w <= gen (set_dl w b))%N. Proof. simpl; lia. Qed.
 
+(* ------------------------------------------------------------------ projections through the ghost updates *)
 Lemma ids_post_ret c u o : ids (post_ret c u o) = ids c.
+Proof. unfold post_ret, add_posted. destruct o; reflexivity. Qed.
+Lemma threads_post_ret c u o : threads (post_ret c u o) = threads c.
+Proof. unfold post_ret, add_posted. destruct o; reflexivity. Qed.
+Lemma boxes_post_ret c u o : boxes (post_ret c u o) = boxes c.
+Proof. unfold post_ret, add_posted. destruct o; reflexivity. Qed.
+Lemma crashed_post_ret c u o : crashed (post_ret c u o) = crashed c.
+Proof. unfold post_ret, add_posted. destruct o; reflexivity. Qed.
+Lemma fin1_post_ret c u o : fin1 (post_ret c u o) = fin1 c.
+Proof. unfold post_ret, add_posted. destruct o; reflexivity. Qed.
+Lemma log_post_ret c u o : log (post_ret c u o) = EvPostRet u :: log c.
+Proof. unfold post_ret, add_posted. destruct o; reflexivity. Qed.
+Lemma posted_post_ret c u o : posted (post_ret c u o) = match o with Some i => (u, i) :: posted c | None => posted c end.
 Proof. unfold post_ret, add_posted. destruct o; reflexivity. Qed.
 Lemma ids_cw_ret c t th i two : ids (cw_ret c t th i two) = ids c.
 Proof. unfold cw_ret, add_fin. destruct two; reflexivity. Qed.
-Lemma ids_push_to c tgt k e c' f : push_to c tgt k e = Some (c', f) -> ids c' = ids c.
-Proof. unfold push_to. destruct (nth_error (threads c) tgt); try discriminate. destruct (push_entry t k e). intros H; injection H as <- _. reflexivity. Qed.
-Lemma ids_interrupt c tgt c' : interrupt c tgt = Some c' -> ids c' = ids c.
-Proof. unfold interrupt. destruct (nth_error (threads c) tgt); try discriminate. intros H; injection H as <-. reflexivity. Qed.
+Lemma threads_cw_ret c t th i two : threads (cw_ret c t th i two) = threads c.
+Proof. unfold cw_ret, add_fin. destruct two; reflexivity. Qed.
+Lemma boxes_cw_ret c t th i two : boxes (cw_ret c t th i two) = boxes c.
+Proof. unfold cw_ret, add_fin. destruct two; reflexivity. Qed.
+Lemma crashed_cw_ret c t th i two : crashed (cw_ret c t th i two) = crashed c.
+Proof. unfold cw_ret, add_fin. destruct two; reflexivity. Qed.
+Lemma posted_cw_ret c t th i two : posted (cw_ret c t th i two) = posted c.
+Proof. unfold cw_ret, add_fin. destruct two; reflexivity. Qed.
+Lemma log_cw_ret c t th i two : log (cw_ret c t th i two) = EvCwRet t i two :: log c.
+Proof. unfold cw_ret, add_fin. destruct two; reflexivity. Qed.
+Lemma fin1_cw_ret c t th i two : fin1 (cw_ret c t th i two) =
+  if two then fin1 c else filter (fun p => Nat.eqb (snd p) i && negb (ouid_is (cur th) (fst p))) (cwsnap th) ++ fin1 c.
+Proof. unfold cw_ret, add_fin. destruct two; reflexivity. Qed.
+
+#[export] Hint Rewrite ids_post_ret threads_post_ret boxes_post_ret crashed_post_ret fin1_post_ret log_post_ret posted_post_ret
+  ids_cw_ret threads_cw_ret boxes_cw_ret crashed_cw_ret posted_cw_ret log_cw_ret fin1_cw_ret : c17proj.
+
+Lemma push_to_spec c tgt k e c1 f :
+  push_to c tgt k e = Some (c1, f) ->
+  exists b, nth_error (boxes c) tgt = Some b /\
+    c1 = set_box c tgt (fst (push_entry b k e)) /\ f = snd (push_entry b k e).
+Proof.
+  unfold push_to. destruct (nth_error (boxes c) tgt) eqn:E; try discriminate.
+  destruct (push_entry m k e) eqn:P. intros H; injection H as <- <-. eexists; split; eauto. rewrite P; auto.
+Qed.
+Lemma interrupt_spec c tgt c1 :
+  interrupt c tgt = Some c1 -> exists b, nth_error (boxes c) tgt = Some b /\ c1 = set_box c tgt (set_intr b).
+Proof. unfold interrupt. destruct (nth_error (boxes c) tgt) eqn:E; try discriminate. intros H; injection H as <-. eauto. Qed.
+
+Ltac more_cases H :=
+  repeat match type of H with
+  | context [match ?x with _ => _ end] => destruct x eqn:?; try discriminate
+  end;
+  try (injection H as H); subst.
+
+Ltac open_step H th it rest Ht Htd :=
+  unfold step in H;
+  match type of H with context [nth_error (threads ?c) ?t] =>
+    destruct (nth_error (threads c) t) as [th|] eqn:Ht; try discriminate;
+    destruct (todo th) as [|it rest] eqn:Htd; try discriminate
+  end.
+
+Ltac split_all :=
+  repeat match goal with
+  | H : _ \/ _ |- _ => destruct H
+  | H : exists _, _ |- _ => destruct H
+  | H : _ /\ _ |- _ => destruct H
+  end.
+
+Ltac inj_items :=
+  repeat match goal with
+  | H : ICmd _ = ICmd _ |- _ => injection H as H; subst
+  | H : IRet _ = IRet _ |- _ => injection H as H; subst
+  | H : IRun _ = IRun _ |- _ => injection H as H; subst
+  | H : IBatch _ _ = IBatch _ _ |- _ => injection H as ? ?; subst
+  | H : IDlAdd _ = IDlAdd _ |- _ => injection H as H; subst
+  | H : IDlCancel _ = IDlCancel _ |- _ => injection H as H; subst
+  | H : ISkipSub _ _ = ISkipSub _ _ |- _ => injection H as ? ?; subst
+  | H : IEndCb _ _ = IEndCb _ _ |- _ => injection H as ? ?; subst
+  end; subst.
+
+Ltac use_specs :=
+  repeat match goal with
+  | H : push_to _ _ _ _ = Some _ |- _ => apply push_to_spec in H; destruct H as (? & ? & -> & ?)
+  | H : interrupt _ _ = Some _ |- _ => apply interrupt_spec in H; destruct H as (? & ? & ->)
+  | H : begin_cw _ _ _ _ = _ |- _ => unfold begin_cw in H; injection H as <- <-
+  end.
+
+Ltac proj_simpl :=
+  unfold start_entry in *; autorewrite with c17proj in *; simpl in *; autorewrite with c17proj in *; simpl in *.
 
 Lemma step_gen_monotone c t c' : step c t = Some c' -> ids_le (ids c) (ids c').
 Proof.
-  intros H. step_cases H;
-  repeat match goal with
-  | H : push_to _ _ _ _ = Some _ |- _ => apply ids_push_to in H; simpl in H
-  | H : interrupt _ _ = Some _ |- _ => apply ids_interrupt in H; simpl in H
-  | H : begin_cw _ _ _ _ = _ |- _ => unfold begin_cw in H; injection H as <- <-
-  end;
-  unfold start_entry; rewrite ?ids_post_ret, ?ids_cw_ret; simpl; rewrite ?ids_post_ret, ?ids_cw_ret; simpl;
-  try match goal with H : ids _ = _ |- _ => rewrite H end;
-  try apply ids_le_refl;
-  try (eapply ids_le_upd; eauto using gen_add1, gen_sub1, gen_bump, gen_set_dl).
+  intros H. unfold step in H. more_cases H. all: use_specs. all: proj_simpl.
+  all: try apply ids_le_refl.
+  all: try (eapply ids_le_upd; eauto using gen_add1, gen_sub1, gen_bump, gen_set_dl).
+Qed.
+
+Lemma step_crashed_mono c t c' : step c t = Some c' -> crashed c = true -> crashed c' = true.
+Proof.
+  intros H C. unfold step in H. more_cases H. all: use_specs. all: proj_simpl; auto.
 Qed.
 
 (* ------------------------------------------------------------------ shape of the pending-operation stack *)
@@ -90,6 +167,14 @@ Definition is_micro (it : item) : bool :=
   | _ => false
   end.
 
+(* what the thread knew when it decided to wait / to CAS in cancel_callback_and_wait(id) *)
+Definition micro_ok (pr : option idx) (m : item) : Prop :=
+  match m with
+  | ICwWait i old => (2 <= cnt old)%N \/ (cnt old = 1%N /\ oidx_is pr i = false)
+  | ICwCas i old => cnt old = 0%N \/ (cnt old = 1%N /\ oidx_is pr i = true)
+  | _ => True
+  end.
+
 (* at a command boundary: either at top level, or inside the body of a running callback *)
 Inductive cshape : list item -> option uid -> option idx -> Prop :=
 | cs_top p : cshape (map ICmd p) None None
@@ -98,7 +183,7 @@ Inductive cshape : list item -> option uid -> option idx -> Prop :=
 
 Inductive shape : list item -> option uid -> option idx -> Prop :=
 | sh_c rest cu pr : cshape rest cu pr -> shape rest cu pr
-| sh_m m rest cu pr : is_micro m = true -> cshape rest cu pr -> shape (m :: rest) cu pr
+| sh_m m rest cu pr : is_micro m = true -> micro_ok pr m -> cshape rest cu pr -> shape (m :: rest) cu pr
 | sh_dl1 i rest cu pr : cshape rest cu pr -> shape (IDlAdd i :: IDlAnd i :: rest) cu pr
 | sh_dl2 i rest cu pr : cshape rest cu pr -> shape (IDlCancel i :: IDlWLoad i :: rest) cu pr
 | sh_batch es oi p : shape (IBatch es oi :: map ICmd p) None None
@@ -107,7 +192,6 @@ Inductive shape : list item -> option uid -> option idx -> Prop :=
 | sh_end i u es oi p : shape (IEndCb i u :: IBatch es oi :: map ICmd p) None None.
 
 Definition wf_thread (th : thread) : Prop := shape (todo th) (cur th) (proc th).
-Definition wf (c : cfg) : Prop := Forall wf_thread (threads c).
 
 Lemma cshape_cons it rest cu pr :
   cshape (it :: rest) cu pr ->
@@ -128,7 +212,7 @@ Proof. intros H; inversion H; subst. repeat eexists. Qed.
 
 Lemma shape_cons it rest cu pr :
   shape (it :: rest) cu pr ->
-  (is_micro it = true /\ cshape rest cu pr) \/
+  (is_micro it = true /\ micro_ok pr it /\ cshape rest cu pr) \/
   (exists i r, it = IDlAdd i /\ rest = IDlAnd i :: r /\ cshape r cu pr) \/
   (exists i r, it = IDlCancel i /\ rest = IDlWLoad i :: r /\ cshape r cu pr) \/
   (exists c, it = ICmd c /\ cshape rest cu pr) \/
@@ -139,7 +223,7 @@ Lemma shape_cons it rest cu pr :
   (exists i u es oi p, it = IEndCb i u /\ rest = IBatch es oi :: map ICmd p /\ cu = None /\ pr = None).
 Proof.
   intros H. inversion H; subst.
-  - apply cshape_cons in H0. destruct H0 as [(c & -> & Hc) | (e & es & oi & p & -> & -> & -> & ->)].
+  - match goal with H0 : cshape _ _ _ |- _ => apply cshape_cons in H0; destruct H0 as [(c & -> & Hc) | (e & es & oi & p & -> & -> & -> & ->)] end.
     + do 3 right; left; eauto.
     + do 4 right; left; repeat eexists.
   - left; auto.
@@ -156,130 +240,36 @@ Proof. intros H; revert n; induction H; destruct n; simpl; intros; constructor; 
 Lemma Forall_nth_error {A} (P : A -> Prop) l n x : Forall P l -> nth_error l n = Some x -> P x.
 Proof. intros H; revert n; induction H; destruct n; simpl; intros; try discriminate; eauto. injection H1 as <-; auto. Qed.
 
-Definition same_ctl (a b : thread) : Prop := todo a = todo b /\ cur a = cur b /\ proc a = proc b.
-Lemma push_entry_ctl th k e : same_ctl (fst (push_entry th k e)) th.
-Proof. destruct k; simpl; repeat split. Qed.
-Lemma wf_same_ctl a b : same_ctl a b -> wf_thread b -> wf_thread a.
-Proof. intros (H1 & H2 & H3). unfold wf_thread. rewrite H1, H2, H3. auto. Qed.
-
-Lemma push_to_spec c tgt k e c1 f :
-  push_to c tgt k e = Some (c1, f) ->
-  exists tth, nth_error (threads c) tgt = Some tth /\
-    c1 = set_thread c tgt (fst (push_entry tth k e)) /\ f = snd (push_entry tth k e).
-Proof.
-  unfold push_to. destruct (nth_error (threads c) tgt) eqn:E; try discriminate.
-  destruct (push_entry t k e) eqn:P. intros H; injection H as <- <-. eexists; split; eauto. rewrite P; auto.
-Qed.
-Lemma interrupt_spec c tgt c1 :
-  interrupt c tgt = Some c1 -> exists tth, nth_error (threads c) tgt = Some tth /\ c1 = set_thread c tgt (set_intr tth).
-Proof. unfold interrupt. destruct (nth_error (threads c) tgt) eqn:E; try discriminate. intros H; injection H as <-. eauto. Qed.
-
-Lemma threads_post_ret c u o : threads (post_ret c u o) = threads c.
-Proof. unfold post_ret, add_posted. destruct o; reflexivity. Qed.
-Lemma threads_cw_ret c t th i two : threads (cw_ret c t th i two) = threads c.
-Proof. unfold cw_ret, add_fin. destruct two; reflexivity. Qed.
-
 Lemma cw_after_load_micro th i w : is_micro (cw_after_load th i w) = true.
 Proof. unfold cw_after_load. destruct (2 <=? cnt w)%N; auto. destruct ((cnt w =? 1)%N && negb (oidx_is (proc th) i)); auto. Qed.
-
-Lemma disp_lock_ctl th oi b th1 : disp_lock th oi = (b, th1) -> same_ctl th1 th.
-Proof. unfold disp_lock. destruct (qi th); [destruct oi; [|destruct (qn th)]|]; intros H; injection H as <- <-; repeat split. Qed.
+Lemma cw_after_load_ok th i w : micro_ok (proc th) (cw_after_load th i w).
+Proof.
+  unfold cw_after_load. destruct (2 <=? cnt w)%N eqn:E2.
+  - simpl. left. apply N.leb_le; auto.
+  - apply N.leb_gt in E2. destruct (cnt w =? 1)%N eqn:E1.
+    + apply N.eqb_eq in E1. destruct (oidx_is (proc th) i) eqn:E3; simpl; rewrite ?E3; [right | right]; split; auto.
+    + apply N.eqb_neq in E1. simpl. left. lia.
+Qed.
 
 #[export] Hint Constructors shape cshape : c17.
-#[export] Hint Resolve cw_after_load_micro : c17.
-
-Lemma cshape_body_start body e es oi p :
-  cshape (map ICmd body ++ IRet e :: IBatch es oi :: map ICmd p) (Some (e_uid e)) (e_id e).
-Proof. constructor. Qed.
-
-Lemma crashed_post_ret c u o : crashed (post_ret c u o) = crashed c.
-Proof. unfold post_ret, add_posted. destruct o; reflexivity. Qed.
-Lemma crashed_cw_ret c t th i two : crashed (cw_ret c t th i two) = crashed c.
-Proof. unfold cw_ret, add_fin. destruct two; reflexivity. Qed.
-
-Ltac more_cases H :=
-  repeat match type of H with
-  | context [match ?x with _ => _ end] => destruct x eqn:?; try discriminate
-  end;
-  try (injection H as H); subst.
-
-Ltac open_step H W th it rest Ht Htd Hsh :=
-  unfold step in H;
-  match type of H with context [nth_error (threads ?c) ?t] =>
-    destruct (nth_error (threads c) t) as [th|] eqn:Ht; try discriminate;
-    pose proof (Forall_nth_error _ _ _ _ W Ht) as Hsh; unfold wf_thread in Hsh;
-    destruct (todo th) as [|it rest] eqn:Htd; try discriminate;
-    apply shape_cons in Hsh
-  end.
-
-Ltac split_all :=
-  repeat match goal with
-  | H : _ \/ _ |- _ => destruct H
-  | H : exists _, _ |- _ => destruct H
-  | H : _ /\ _ |- _ => destruct H
-  end.
-
-Ltac inj_items :=
-  repeat match goal with
-  | H : ICmd _ = ICmd _ |- _ => injection H as H; subst
-  | H : IRet _ = IRet _ |- _ => injection H as H; subst
-  | H : IRun _ = IRun _ |- _ => injection H as H; subst
-  | H : IBatch _ _ = IBatch _ _ |- _ => injection H as H; subst
-  | H : IDlAdd _ = IDlAdd _ |- _ => injection H as H; subst
-  | H : IDlCancel _ = IDlCancel _ |- _ => injection H as H; subst
-  | H : ISkipSub _ _ = ISkipSub _ _ |- _ => injection H as ? ?; subst
-  | H : IEndCb _ _ = IEndCb _ _ |- _ => injection H as ? ?; subst
-  end; subst.
-
-Ltac use_specs :=
-  repeat match goal with
-  | H : push_to _ _ _ _ = Some _ |- _ => apply push_to_spec in H; destruct H as (? & ? & -> & ?)
-  | H : interrupt _ _ = Some _ |- _ => apply interrupt_spec in H; destruct H as (? & ? & ->)
-  | H : begin_cw _ _ _ _ = _ |- _ => unfold begin_cw in H; injection H as <- <-
-  end.
-
-Definition wfc (c : cfg) : Prop := crashed c = false -> Forall wf_thread (threads c).
-
-Lemma nth_upd_P {A} (P : A -> Prop) l n x m y : Forall P l -> P x -> nth_error (upd l n x) m = Some y -> P y.
-Proof. intros. eapply Forall_nth_error; [apply Forall_upd; eauto | eauto]. Qed.
-
-Lemma read_back l t a tgt x k e y b0 :
-  nth_error l t = Some b0 ->
-  nth_error (upd l t a) tgt = Some x ->
-  nth_error (upd (upd l t a) tgt (fst (push_entry x k e))) t = Some y -> same_ctl y a.
-Proof.
-  intros H0 H1 H2. rewrite nth_error_upd in H2. destruct (Nat.eqb tgt t) eqn:E.
-  - apply Nat.eqb_eq in E; subst. rewrite H1 in H2. injection H2 as <-.
-    erewrite nth_error_upd_same in H1 by eauto. injection H1 as <-. apply push_entry_ctl.
-  - erewrite nth_error_upd_same in H2 by eauto. injection H2 as <-. repeat split.
-Qed.
+#[export] Hint Resolve cw_after_load_micro cw_after_load_ok : c17.
+#[export] Hint Extern 1 (micro_ok _ _) => exact I : c17.
 
 Lemma step_wf c t c' : crashed c' = false -> Forall wf_thread (threads c) -> step c t = Some c' -> Forall wf_thread (threads c').
 Proof.
-  intros NC W H. open_step H W th it rest Ht Htd Hsh.
+  intros NC W H. open_step H th it rest Ht Htd.
+  pose proof (Forall_nth_error _ _ _ _ W Ht) as Hsh. unfold wf_thread in Hsh. rewrite Htd in Hsh. apply shape_cons in Hsh.
   more_cases H.
   all: split_all; try discriminate; inj_items.
   all: use_specs.
-  all: repeat match goal with H : disp_lock _ _ = _ |- _ => apply disp_lock_ctl in H; destruct H as (? & ? & ?) end.
-  all: unfold start_entry in *; rewrite ?threads_post_ret, ?threads_cw_ret, ?crashed_post_ret, ?crashed_cw_ret in *; simpl in *;
-       rewrite ?threads_post_ret, ?threads_cw_ret, ?crashed_post_ret, ?crashed_cw_ret in *; simpl in *; try discriminate.
-  all: try match goal with
-    | H : nth_error (upd (threads _) _ ?a) ?tgt = Some ?x |- _ =>
-        assert (wf_thread a) by (unfold wf_thread; simpl; eauto 6 with c17);
-        assert (wf_thread x) by (eapply (nth_upd_P wf_thread); eauto)
-    end.
-  all: try match goal with
-    | H0 : nth_error (threads ?c) ?t = Some _,
-      H1 : nth_error (upd (threads ?c) ?t ?a) ?tgt = Some ?x,
-      H2 : nth_error (upd (upd (threads ?c) ?t ?a) ?tgt (fst (push_entry ?x ?k ?e))) ?t = Some ?y |- _ =>
-        destruct (read_back _ _ _ _ _ _ _ _ _ H0 H1 H2) as (? & ? & ?); simpl in *
-    end.
+  all: proj_simpl; try discriminate.
   all: repeat (apply Forall_upd); auto.
-  all: try match goal with |- wf_thread (fst (push_entry ?x ?k ?e)) =>
-         eapply wf_same_ctl; [apply push_entry_ctl | auto] end.
-  all: unfold wf_thread in *; simpl in *;
-       repeat match goal with H : cur _ = _ |- _ => rewrite H | H : proc _ = _ |- _ => rewrite H end;
-       eauto 6 with c17.
+  all: unfold wf_thread in *; simpl in *.
+  all: repeat match goal with
+    | H : cur ?x = _ |- context [cur ?x] => rewrite H
+    | H : proc ?x = _ |- context [proc ?x] => rewrite H
+    end.
+  all: eauto 6 with c17.
   all: try match goal with H : e_id ?e = _ |- shape (_ ++ IRet ?e :: _) _ _ => rewrite <- H; apply sh_c; constructor end.
   all: try match goal with H : cshape _ None _ |- _ => apply cshape_none in H; destruct H as (HH & p & ->); rewrite ?HH; apply sh_batch end.
   all: try match goal with H : e_id ?x = None |- shape _ None (e_id ?x) => rewrite H; apply sh_batch end.
